@@ -86,6 +86,7 @@ var hugeNumbers = []string{
 	"1e400", "-1e400", "1e-400", "99999999999999999999999999999999999999", "-99999999999999999999999999999999999999",
 	"0." + strings.Repeat("0", 400) + "1", strings.Repeat("9", 400), "1" + strings.Repeat("0", 400) + ".5", "1e2147483648", "1e-2147483649",
 	"18446744073709551616", "9223372036854775808", "-9223372036854775809", "4294967296", "2147483648", "-2147483649", "3.5e38", "1.8e308",
+	"1e1000000", "1e60000000", "-1e60000000", "0e-2000000000", "1e-60000000", "0e2000000000", "5e-1", "1e0", "10e-1", "1.0e1", "12.50e2",
 }
 
 // HugeNumber replaces one scalar of the document by a huge / extreme number, bare or quoted.
@@ -118,7 +119,13 @@ func WrongShape(root *J, r *vh.Rand) *J {
 		return c
 	}
 	n := nodes[1+r.Intn(len(nodes)-1)]
-	alts := []*J{Num("1"), Str("x"), Bool(true), Arr(), Obj(), Arr(Null()), Obj().Add("k", Null()), Arr(Num("1"), Str("a")), Obj().Add("!type", Str("x")), Null(), Arr(Arr()), Obj().Add("", Obj())}
+	alts := []*J{Num("1"), Str("x"), Str(""), Str(" "), Str("null"), Num("0"), Num("-0"), Num("1.5"), Bool(false), Bool(true), Arr(), Obj(), Arr(Null()), Obj().Add("k", Null()), Arr(Num("1"), Str("a")), Obj().Add("!type", Str("x")), Null(), Arr(Arr()), Obj().Add("", Obj())}
 	n.Replace(vh.Pick(r, alts))
 	return c
+}
+
+// OddValues are values of every JSON shape that a member position may be confronted with.
+func OddValues() []*J {
+	return []*J{Null(), Str(""), Str(" "), Str("x"), Str("0"), Str("null"), Str("true"), Num("0"), Num("-0"), Num("1"), Num("1.5"), Num("1e3"), Num("1e60000000"), Num("0e-2000000000"),
+		Str("1e60000000"), Bool(true), Bool(false), Arr(), Obj(), Arr(Null()), Arr(Str("")), Obj().Add("k", Null()), Obj().Add("k", Str("")), Obj().Add("!type", Str("")), Arr(Arr()), Arr(Obj())}
 }
